@@ -253,3 +253,48 @@ func signatureOf(c *Case, o *Outcome) string {
 	}
 	return fmt.Sprintf("%s/%s: %s [%s]", c.Property, rule, fam, strings.Join(ks, ","))
 }
+
+// encodeRLE / decodeRLE: readable form of a schedule.
+func encodeRLE(d []uint16) string {
+	var sb strings.Builder
+	for i := 0; i < len(d); {
+		j := i
+		for j < len(d) && d[j] == d[i] {
+			j++
+		}
+		if sb.Len() > 0 {
+			sb.WriteByte(' ')
+		}
+		switch {
+		case d[i]&0x8000 != 0:
+			fmt.Fprintf(&sb, "S%d", d[i]&0x3fff)
+		case d[i]&0x4000 != 0:
+			fmt.Fprintf(&sb, "R%d", d[i]&0x3fff)
+		default:
+			fmt.Fprintf(&sb, "%dx%d", d[i], j-i)
+		}
+		i = j
+	}
+	return sb.String()
+}
+
+func decodeRLE(s string) []uint16 {
+	var out []uint16
+	for _, tok := range strings.Fields(s) {
+		var t, n int
+		switch {
+		case tok[0] == 'S':
+			fmt.Sscanf(tok[1:], "%d", &t)
+			out = append(out, uint16(t)|0x8000)
+		case tok[0] == 'R':
+			fmt.Sscanf(tok[1:], "%d", &t)
+			out = append(out, uint16(t)|0x4000)
+		default:
+			fmt.Sscanf(tok, "%dx%d", &t, &n)
+			for k := 0; k < n; k++ {
+				out = append(out, uint16(t))
+			}
+		}
+	}
+	return out
+}
